@@ -277,7 +277,7 @@ def _check_grid(ctx, f, g, inst, points="all"):
                              instance=inst)
                     return
             nrm = float(np.linalg.norm(exp.astype(float)))
-            if abs(na[cid] - nrm) > (1e-6 if arr.dtype == np.float32 else 1e-12) * nrm:
+            if C.gt(abs(na[cid] - nrm), (1e-6 if arr.dtype == np.float32 else 1e-12) * nrm):
                 ctx.fail("Field.to_vtk/located-cell/norm", f"at {p} (mesh cell {idx}) norm {na[cid]} expected {nrm}",
                          instance=inst)
                 return
